@@ -187,7 +187,7 @@ class Prop:
             "inputs before/after).  Enumerated: every pair of sibling-unique labelled forests with <= 3 nodes each over 3 labels, one "
             "representative per renaming of the labels (thorough: plus all pairs (4 nodes, <= 3 nodes) and seeded samples of the "
             "(<= 3, 4) and (4, 4) pairs); random: mutated copies (add/remove/move/swap/relabel/sort, 0-6 steps) of random trees with up "
-            "to 14 (thorough 30) nodes over 3-6 labels, unrelated random pairs, identical copies, the same tree object on both sides; pairs of TypedTrees with random kinds; "
+            "to 14 (thorough 30) nodes over 3-6 labels, unrelated random pairs, identical copies, the same tree object on both sides; pairs of TypedTrees with random kinds; pairs whose nodes carry user metadata; every diff is run twice on the same inputs and each input is diffed against a fresh copy of itself; "
             "plus an out-of-domain stream (equal-comparing objects under explicit data_ids, ids shared by unequal data; diff may lose or "
             "duplicate nodes) on which model = implementation and 'inputs unchanged' are checked.  The oracle is "
             "applied exactly on the pairs inside the theorems' domain (computed independently on both sides).  distinct = distinct "
@@ -199,6 +199,8 @@ class Prop:
         "copies the implementation marked MOVED_HERE and processes them first; agreement then shows the implementation's output is "
         "the model's output for one admissible iteration order (the theorems hold for every order)",
         "Tree.filter is wrapped inside the harness process to snapshot t2 before the reduce step of the same run",
+        "'neither input is modified' is observed as a deep snapshot of both inputs (node and data identities, data_id, kind, contents and "
+        "object identity of every meta dict) before the first and after every call",
         "outside the theorems' domain a t1 branch can be copied twice (top matched by == and added by data_id); the model identifies "
         "result nodes by their source and cannot tell the copies apart in the re-classification: such a case is not compared "
         "when a MOVED_TO mark carries a data_id of that branch (stat dup_excluded); inside the domain this cannot happen "
@@ -249,7 +251,7 @@ class Prop:
             for _ in range(1500):
                 f0, f1 = rng.choice(small[4]), rng.choice(small[4])
                 yield dict(univ=univ3, t0=to_nodes(f0), t1=to_nodes(f1))
-        nrand = 200 if tier == "quick" else 1500
+        nrand = 140 if tier == "quick" else 1500
         nmax = 14 if tier == "quick" else 30
         for i in range(nrand):
             k = rng.choice([3, 3, 4, 6])
@@ -266,6 +268,28 @@ class Prop:
             else:
                 t1 = rand_nodes(rng, rng.randint(0, nmax), k)
             yield dict(univ=LABELS[:k], t0=t0, t1=t1)
+        # inputs whose nodes carry user metadata (on changed and on unchanged nodes); diff must neither copy nor touch it
+        nmeta = 140 if tier == "quick" else 1500
+        small_all = [f for n in range(1, 4) for f in small[n]]
+        for i in range(nmeta):
+            k = rng.choice([3, 3, 4])
+            if i % 2 == 0:
+                t0 = to_nodes(rng.choice(small_all))
+                t1 = mutate(rng, t0, 3, rng.randint(0, 3)) if rng.random() < 0.6 else to_nodes(rng.choice(small_all))
+                k = 3
+            else:
+                t0 = rand_nodes(rng, rng.randint(2, 10), k)
+                t1 = mutate(rng, t0, k, rng.randint(0, 5))
+
+            def um(nodes):
+                n = B.nodes_size(nodes)
+                return {str(j): rng.choice([{"u": 1}, {"note": "x", "n": 2}, {"flag": True}])
+                        for j in range(n) if rng.random() < 0.6}
+
+            d = dict(univ=LABELS[:k], t0=t0, t1=t1, um0=um(t0), um1=um(t1))
+            if i % 7 == 0:
+                d = dict(d, typed=True, t0=[[l, "k1", x, c] for l, _, x, c in t0], t1=[[l, "k1", x, c] for l, _, x, c in t1])
+            yield d
         # typed trees (both inputs TypedTree; kinds play no role in the comparison and are copied to the result)
         ntyped = 50 if tier == "quick" else 300
         for i in range(ntyped):
@@ -322,6 +346,16 @@ class Prop:
                 B.add_nodes(t1._root, desc["t1"], U, typed)
         except Exception:
             return None
+        # user metadata on some nodes of the inputs: {"<pre-order index>": {key: value}}
+        for tree, key in ((t0, "um0"), (t1, "um1")):
+            if key == "um1" and desc.get("alias"):
+                continue
+            um = desc.get(key) or {}
+            if um:
+                nodes = B.all_nodes(tree._root)
+                for idx, d in um.items():
+                    if int(idx) < len(nodes):
+                        nodes[int(idx)].update_meta(dict(d))
         return U, t0, t1, base
 
     def run(self, desc) -> Case:
@@ -333,6 +367,7 @@ class Prop:
         # node identities local to the case (allocation index minus the index at the start of the case): unary nat in Coq
         in0, in1 = coq_forest(t0._root, U, base), coq_forest(t1._root, U, base)
         before = (sx_forest(t0._root, U, base), sx_forest(t1._root, U, base))
+        deep_before = (deep_snapshot(t0), deep_snapshot(t1))
         outside = not in_domain(t0._root._children or [], t1._root._children or [])
         # the no-error theorem needs only well-formed inputs: no two siblings with one data_id (Tree._register's own rule)
         may_not_raise = dids_unique_everywhere(t0) and dids_unique_everywhere(t1)
@@ -344,16 +379,21 @@ class Prop:
         marks = 0
         ambiguous = False
         errors = 0
-        for ordered, reduce in cfgs:
+        def call(ordered, reduce):
             _SNAP["on"], _SNAP["val"] = True, None
             try:
-                res = t0.diff(t1, ordered=ordered, reduce=reduce)
-                err = None
-            except Exception as e:  # noqa: BLE001
-                res, err = None, e
+                r, e = t0.diff(t1, ordered=ordered, reduce=reduce), None
+            except Exception as ex:  # noqa: BLE001
+                r, e = None, ex
             finally:
                 _SNAP["on"] = False
-            snap = _SNAP["val"]
+            # "neither input is modified": identity, payload, FULL meta contents and the identity of the meta dict objects
+            if (deep_snapshot(t0), deep_snapshot(t1)) != deep_before:
+                fails.append(f"inputs-modified: ordered={ordered} reduce={reduce}")
+            return r, e, _SNAP["val"]
+
+        for ordered, reduce in cfgs:
+            res, err, snap = call(ordered, reduce)
             after = (sx_forest(t0._root, U, base), sx_forest(t1._root, U, base))
             if after != before:
                 fails.append(f"inputs-modified: ordered={ordered} reduce={reduce}")
@@ -381,6 +421,22 @@ class Prop:
                 ambiguous = ambiguous or st["ambiguous"]
                 if f:
                     fails.append(f"{f} [ordered={ordered} reduce={reduce}]")
+                # the same call once more on the same inputs: a history of diffs must not change what a diff reports
+                res2, err2, snap2 = call(ordered, reduce)
+                if err2 is not None:
+                    fails.append(f"raised: second call {type(err2).__name__} ordered={ordered} reduce={reduce}")
+                else:
+                    f2, _ = oracle(t0, t1, res2, ordered, reduce, snap2)
+                    if f2:
+                        fails.append(f"second-call: {f2} [ordered={ordered} reduce={reduce}]")
+        # ... and against a fresh copy of itself: no marks
+        if not fails:
+            for t in ([t0] if t1 is t0 else [t0, t1]):
+                f3 = self_diff_check(t)
+                if f3:
+                    fails.append(f3)
+                if (deep_snapshot(t0), deep_snapshot(t1)) != deep_before:
+                    fails.append("inputs-modified: by diff against a fresh copy")
         # Outside the domain a t1 child can be matched (==) AND added (its data_id is not among p0's): its branch is
         # copied twice.  The model identifies result nodes by their source, so it cannot tell the two copies apart in the
         # re-classification; when that matters (a MOVED_TO mark for a data_id of such a branch) the results are not compared.
@@ -399,6 +455,50 @@ class Prop:
                     nontrivial=marks > 0, key=H.digest([desc["univ"], desc["t0"], desc["t1"]]),
                     stats=dict(n0=min(n0, 16), n1=min(n1, 16), marked=marks > 0, ambiguous=ambiguous, raised=errors > 0,
                                outside=outside, dup_excluded=dup_excluded))
+
+
+def deep_snapshot(tree):
+    """every node of a tree by pointers: identity, data object identity, data_id, kind, identity AND contents of its meta dict"""
+    import copy
+
+    out = []
+
+    def go(n, depth):
+        for c in (n._children or []):
+            m = c._meta
+            out.append((depth, id(c), id(c._data), c._data_id, getattr(c, "kind", None),
+                        None if m is None else id(m), copy.deepcopy(m)))
+            go(c, depth + 1)
+
+    go(tree._root, 0)
+    rm = tree._root._meta
+    return (None if rm is None else (id(rm), copy.deepcopy(rm)), out)
+
+
+DIFF_KEYS = ("dc", "dc_renumbered")
+
+
+def self_diff_check(t):
+    """t.diff(fresh copy of t): no marks anywhere, and no metadata at all on the result (the result carries only diff's own)"""
+    try:
+        c = t.copy()
+    except Exception:  # noqa: BLE001
+        return None
+    if not in_domain(t._root._children or [], c._root._children or []):
+        return None
+    if shape(t._root) != shape(c._root):
+        return None
+    for ordered in (False, True):
+        try:
+            r = t.diff(c, ordered=ordered)
+        except Exception as e:  # noqa: BLE001
+            return f"raised: {type(e).__name__} in diff against a fresh copy"
+        if r._root._meta:
+            return f"identical: root meta {r._root._meta} on the diff against a fresh copy"
+        for n in B.all_nodes(r._root):
+            if n._meta:
+                return f"identical: node {n._data!r} carries {n._meta} in the diff against a fresh copy"
+    return None
 
 
 def coq_rt(node, U, base):
@@ -559,9 +659,26 @@ def oracle(t0, t1, res, ordered, reduce, snap):
     s1 = [(c._data, shape(c)) for c in (t1._root._children or [])]
 
     def count(f):
-        return sum((1 if m else 0) + count(k) for _, m, k in f)
+        return sum((1 if (m and any(kk in m for kk in DIFF_KEYS)) else 0) + count(k) for _, m, k in f)
 
     st["marks"] = count(full) + (1 if root_meta else 0)
+
+    # (0) the result carries only the diff's own metadata (user metadata of the inputs is not copied)
+    def foreign(f):
+        for d, m, k in f:
+            extra = [kk for kk in (m or {}) if kk not in DIFF_KEYS]
+            if extra:
+                return f"meta: result node {d!r} carries foreign metadata keys {extra}"
+            r = foreign(k)
+            if r:
+                return r
+        return None
+
+    r = foreign(full) or foreign(got)
+    if r:
+        return r, st
+    if [kk for kk in (root_meta or {}) if kk not in DIFF_KEYS]:
+        return f"meta: result root carries foreign metadata {root_meta}", st
 
     # (1) identical inputs: no marks at all
     if s0 == s1 and st["marks"]:
@@ -736,6 +853,9 @@ def ucanon(s):
 
 
 CORPUS = [
+    # user metadata on a node that gets a mark and on an unchanged one (seeded C11-4 / C11-5)
+    dict(univ=LABELS[:3], t0=[[0, None, None, [[1, None, None, []]]], [2, None, None, []]], t1=[[2, None, None, []], [0, None, None, []]],
+         um0={"0": {"u": 1}, "1": {"u": 2}, "2": {"note": "x"}}, um1={"0": {"u": 3}}),
     # tree.diff(tree): the same object on both sides
     dict(univ=LABELS[:3], alias=True, t0=[[0, None, None, [[1, None, None, []]]], [2, None, None, []]], t1=[[0, None, None, [[1, None, None, []]]], [2, None, None, []]]),
     # D62: diff() of two typed trees raised TypeError (Node.add_child cannot construct a TypedNode copy)
